@@ -13,7 +13,7 @@ import (
 )
 
 func init() {
-	register("C02", "Decides four structural clauses of recognition completeness over the matchers' decision tables: (R02.1) every reply form of the property's catalogue (time-exceeded v4/v6, echo reply v4/v6, destination-unreachable for UDP, SYN-ACK/RST/RST-ACK, SACK-carrying ACK, ICMPv4 time-exceeded for TCP variants) reaches an accept site, in strict and in relaxed mode; (R02.2) no accept path constrains a field that routers rewrite or add (quoted TTL/hop limit, checksum, TOS/traffic class, IP options); (R02.3) the strict/relaxed switch is exactly a switch on the INNER quoted source: relaxed paths carry no quoted-source comparison, strict paths compare ICMPPair.SrcAddr (never the outer IPPair) with the probe's own source; (R02.4) the parallel engine's listening budget originates from TracerouteTimeout + SendDelay*ProbeCount and its receiver loop tests the group context, not the writer context, so it keeps reading after the destination answered. Tolerance of concrete encodings (28-byte quotes, RFC 4884 extensions) is gopacket's and is not decided; deadline arithmetic is timing. (R02.6) In every SendProbe the probe is recorded in the sent-probe table before Sink.WriteTo, so that a reply can never be looked up before its probe exists. (R02.7) The lookup that credits a reply admits the whole probed range: on its success paths the key is bounded by MinTTL and MaxTTL inclusively. (R02.4b) The listening budget is TracerouteTimeout + SendDelay * probe count in time.Duration arithmetic. R02.5 also covers slices.Min/Max/Sort over a slice of SACK edges, which must have been made relative in place over its whole range; an accept path that does not consult the relaxed switch serves the strict form (and the relaxed one when it compares no source). (R02.8) The runner builds the SACK variant's parameters with the relaxed source switch constant true; the parser's destination-unreachable test looks at the ICMP type alone. (R02.9) On the parse path of package packets no byte slice is read at a constant offset of 20 or more: everything past the shortest IP header sits behind a variable-length header, so a hand-written peek at a fixed offset mis-reads genuine replies that carry outer IP options.", runC02)
+	register("C02", "Decides four structural clauses of recognition completeness over the matchers' decision tables: (R02.1) every reply form of the property's catalogue (time-exceeded v4/v6, echo reply v4/v6, destination-unreachable for UDP, SYN-ACK/RST/RST-ACK, SACK-carrying ACK, ICMPv4 time-exceeded for TCP variants) reaches an accept site, in strict and in relaxed mode; (R02.2) no accept path constrains a field that routers rewrite or add (quoted TTL/hop limit, checksum, TOS/traffic class, IP options); (R02.3) the strict/relaxed switch is exactly a switch on the INNER quoted source: relaxed paths carry no quoted-source comparison, strict paths compare ICMPPair.SrcAddr (never the outer IPPair) with the probe's own source; (R02.4) the parallel engine's listening budget originates from TracerouteTimeout + SendDelay*ProbeCount and its receiver loop tests the group context, not the writer context, so it keeps reading after the destination answered. Tolerance of concrete encodings (28-byte quotes, RFC 4884 extensions) is gopacket's and is not decided; deadline arithmetic is timing. (R02.6) In every SendProbe the probe is recorded in the sent-probe table before Sink.WriteTo, so that a reply can never be looked up before its probe exists. (R02.7) The lookup that credits a reply admits the whole probed range: on its success paths the key is bounded by MinTTL and MaxTTL inclusively. (R02.4b) The listening budget is TracerouteTimeout + SendDelay * probe count in time.Duration arithmetic. R02.5 also covers slices.Min/Max/Sort over a slice of SACK edges, which must have been made relative in place over its whole range; an accept path that does not consult the relaxed switch serves the strict form (and the relaxed one when it compares no source). (R02.8) The runner builds the SACK variant's parameters with the relaxed source switch constant true; the parser's destination-unreachable test looks at the ICMP type alone. (R02.9) On the parse path of package packets no byte slice is read at a constant offset of 20 or more: everything past the shortest IP header sits behind a variable-length header, so a hand-written peek at a fixed offset mis-reads genuine replies that carry outer IP options. No error on the run path is compared with os.ErrDeadlineExceeded by identity (shared with C09 R09.1): the handles report the expired poll deadline wrapped.", runC02)
 	darwinRules["C02"] = runC02
 }
 
